@@ -111,6 +111,7 @@ BUILTIN_FRESH = {'len', 'int', 'float', 'str', 'bool', 'range', 'isinstance', 'i
                  'pow', 'ord', 'chr', 'format',
                  # shallow copies: a NEW container (DESIGN: constructor calls are fresh)
                  'list', 'tuple', 'set', 'dict', 'frozenset', 'sorted', 'bytes', 'object', 'complex', 'slice'}
+BUILTIN_SHALLOW = {'list', 'tuple', 'set', 'dict', 'frozenset', 'sorted'}
 BUILTIN_ALIAS = {'zip', 'enumerate', 'reversed', 'iter', 'next', 'min', 'max', 'map', 'filter', 'vars'}
 BUILTIN_CB = {'sorted', 'min', 'max', 'map', 'filter'}       # take a callable (`key=` or first argument)
 EXC_NAMES = {'ValueError', 'TypeError', 'NotImplementedError', 'AttributeError', 'Exception', 'KeyError',
@@ -139,6 +140,9 @@ PURE_METHODS = {'copy', 'astype', 'sum', 'mean', 'std', 'var', 'min', 'max', 'an
 ALIAS_METHODS = {'to_numpy', 'reshape', 'ravel', 'squeeze', 'transpose', 'view', 'to_frame', 'items', 'values',
                  'keys', 'get', 'iterrows', 'itertuples', 'head', 'tail', 'swapaxes', '__getitem__', 'iteritems',
                  'groupby', 'first', 'last', 'take_view', 'infer_objects', 'set_axis_view'}
+ELEMENT_METHODS = {'get', 'values', 'items', 'keys', 'iterrows', 'itertuples', 'first', 'last', 'iteritems',
+                   '__getitem__'}
+SHALLOW_METHODS = {'copy', 'tolist', 'to_dict', 'to_list', 'difference', 'union', 'intersection'}
 # attributes of foreign objects
 VIEW_ATTRS = {'T', 'values', 'flat', 'real', 'imag', 'columns', 'index', 'loc', 'iloc', 'at', 'iat', 'data', 'x',
               'dataset', 'covariance', 'weights', 'base', 'array', 'layout', 'str', 'dt', 'mT'}
@@ -259,6 +263,9 @@ class IRFn:
         self.body = []
         self.scalar = set()     # parameter names treated as immutable scalars
         self.done = False
+        self.locals = set()
+        self.has_nested = False
+        self.cloned_from = None
 
 
 class Analysis:
@@ -273,6 +280,9 @@ class Analysis:
         self.escaped = []        # keys of functions referenced as values
         self.unresolved = []     # call sites whose callee is unknown
         self.attr_vars = {}      # attribute name -> var id
+        self.content = {}        # var id -> content var id
+        self.is_content = set()
+        self.owner = {}          # var id -> IRFn that owns it (locals are renamed when a function is cloned)
         self.load()
 
     # ------------------------------------------------------------------ loading
@@ -376,9 +386,26 @@ class Analysis:
         return r
 
     # ------------------------------------------------------------------ variables / functions
-    def newvar(self, name):
+    def newvar(self, name, owner=None):
         self.varnames.append(name)
-        return len(self.varnames) - 1
+        v = len(self.varnames) - 1
+        if owner is not None:
+            owner.locals.add(v)
+            self.owner[v] = owner
+        return v
+
+    def cvar(self, v):
+        """content variable of `v`: stands for every object reachable inside the object of `v`
+        (content variables are closed under "content of": C(C(v)) = C(v))"""
+        if v == NOTHING:
+            return NOTHING
+        if v in self.is_content:
+            return v
+        if v not in self.content:
+            c = self.newvar(self.varnames[v] + '°', self.owner.get(v))
+            self.is_content.add(c)
+            self.content[v] = c
+        return self.content[v]
 
     def attr_var(self, attr):
         if attr not in self.attr_vars:
@@ -492,21 +519,128 @@ class Analysis:
                 args = bind(callee, [[v] for v in site['pos']], {k: [v] for k, v in site['kw'].items()},
                             [site['star']] if site['star'] is not None else None,
                             [site['dstar']] if site['dstar'] is not None else None)
+                body = site['fn'].body
                 vs = []
-                for srcs in args:
-                    srcs = [s for s in srcs if s != NOTHING]
-                    if len(srcs) == 0:
-                        vs.append(NOTHING)
-                    elif len(srcs) == 1:
-                        vs.append(srcs[0])
+                for k, items in enumerate(args):
+                    items = [it for it in items if it != (NOTHING, NOTHING)]
+                    packed = callee.params[k][2] in ('vararg', 'kwarg')
+                    if not items:
+                        vs += [NOTHING, NOTHING]
+                    elif len(items) == 1 and not packed:
+                        vs += [items[0][0], items[0][1]]
                     else:
-                        t = self.newvar(f'{site["fn"].spec.key}/%arg')
-                        for s in srcs:
-                            site['fn'].body.append(('alias', t, s))
-                        vs.append(t)
-                site['fn'].body.append(('call', callee.idx, vs, site['ret']))
+                        t = self.newvar(f'{site["fn"].spec.key}/%arg', site['fn'])
+                        ct = self.cvar(t)
+                        for a, ca in items:
+                            if packed:
+                                for x in (a, ca):
+                                    if x != NOTHING:
+                                        body.append(('alias', ct, x))
+                            else:
+                                if a != NOTHING:
+                                    body.append(('alias', t, a))
+                                if ca != NOTHING:
+                                    body.append(('alias', ct, ca))
+                        vs += [t if not packed else NOTHING, ct]
+                body.append(('call', callee.idx, vs, [site['ret'], self.cvar(site['ret'])]))
                 changed = True
         return changed or bool(self.queue)
+
+
+INLINE_LIMIT = 150      # statements (deep) of a callee that is cloned per call site
+
+
+def inline_small(an, keep):
+    """Context sensitivity for small helpers: every call to a small, non-recursive function that
+    defines no closure and is not a dynamic target gets its own clone of the callee (locals renamed),
+    bottom-up, so that e.g. the views returned by `split_matrix(X)` to different callers are not merged.
+    Pure IR-to-IR transformation: a clone has exactly the statements of the original."""
+    fns = an.order
+    n0 = len(fns)
+    dynamic = {an.fns[k].idx for k in an.escaped if k in an.fns}
+    for site in an.unresolved:
+        for st in site['fn'].body:
+            pass
+    callees = {f.idx: [st[1] for st in f.body if st[0] == 'call'] for f in fns}
+    # functions on a call-graph cycle
+    cyc = set()
+    for f in fns:
+        seen, work = set(), list(callees[f.idx])
+        while work:
+            g = work.pop()
+            if g == f.idx:
+                cyc.add(f.idx)
+                break
+            if g not in seen:
+                seen.add(g)
+                work.extend(callees[g])
+    dyn_targets = set(dynamic)
+    for site in an.unresolved:
+        dyn_targets.update(an.fns[k].idx for k in site['done'] if k in an.fns)
+    size = {}
+
+    def inlinable(g):
+        return g not in cyc and g not in dyn_targets and not fns[g].has_nested and size.get(g, 10 ** 9) <= INLINE_LIMIT
+
+    def clone(g):
+        src = fns[g]
+        c = IRFn(len(fns), src.spec)
+        c.cloned_from = src.cloned_from if src.cloned_from is not None else src.idx
+        fns.append(c)
+        ren = {}
+        for v in sorted(src.locals):
+            nv = an.newvar(an.varnames[v] + f'~{c.idx}', c)
+            ren[v] = nv
+            if v in an.is_content:
+                an.is_content.add(nv)
+        for v, cv in list(an.content.items()):
+            if v in ren and cv in ren:
+                an.content[ren[v]] = ren[cv]
+        r = lambda x: ren.get(x, x)
+        c.params = [(n, r(v), k) for n, v, k in src.params]
+        c.defaults, c.scalar, c.done = src.defaults, src.scalar, True
+        c.ret = r(src.ret)
+        for st in src.body:
+            if st[0] == 'call':
+                tgt = st[1]
+                if tgt in owned:            # a private clone of the original: clone it again
+                    tgt = clone(tgt)
+                    owned.add(tgt)
+                c.body.append(('call', tgt, [r(a) for a in st[2]], [r(a) for a in st[3]]))
+            else:
+                c.body.append((st[0],) + tuple(r(a) for a in st[1:]))
+        return c.idx
+
+    owned = set()
+    done = set()
+
+    def process(fi):
+        if fi in done:
+            return
+        done.add(fi)
+        f = fns[fi]
+        if fi in cyc:
+            size[fi] = 10 ** 9
+        for st in f.body:
+            if st[0] == 'call' and st[1] not in cyc:
+                process(st[1])
+        total = len(f.body)
+        newbody = []
+        for st in f.body:
+            if st[0] == 'call' and st[1] != fi and inlinable(st[1]):
+                ci = clone(st[1])
+                owned.add(ci)
+                total += size[st[1]]
+                newbody.append(('call', ci, st[2], st[3]))
+            else:
+                newbody.append(st)
+        f.body = newbody
+        if fi not in cyc:
+            size[fi] = total
+    import sys as _sys
+    _sys.setrecursionlimit(max(_sys.getrecursionlimit(), 10000))
+    for fi in range(n0):
+        process(fi)
 
 
 def compatible(callee, npos, kwnames, has_star, has_dstar):
@@ -561,14 +695,36 @@ def bind(callee, pos, kw, star, dstar):
 
 # --------------------------------------------------------------------------------------------
 class Val:
-    """abstract value of an expression"""
-    __slots__ = ('srcs', 'immut', 'inst', 'ref')
+    """abstract value of an expression: `srcs` = variables whose object the value may BE,
+    `csrcs` = (content) variables whose objects may be reachable INSIDE the value"""
+    __slots__ = ('srcs', 'csrcs', 'immut', 'inst', 'ref')
 
-    def __init__(self, srcs=(), immut=False, inst=None, ref=None):
+    def __init__(self, srcs=(), csrcs=(), immut=False, inst=None, ref=None):
         self.srcs = tuple(dict.fromkeys(s for s in srcs if s != NOTHING))
+        self.csrcs = tuple(dict.fromkeys(s for s in csrcs if s != NOTHING))
         self.immut = immut
         self.inst = inst        # ClassInfo: an instance of this class (or a subclass)
-        self.ref = ref          # ('func', FnSpec) | ('class', ClassInfo) | ('ext', dotted) | ('self',) | ('cls',)
+        self.ref = ref          # ('func', FnSpec) | ('class', ClassInfo) | ('ext', dotted) | ('self',) | …
+
+    def reach(self):
+        """everything the value is or holds"""
+        return tuple(dict.fromkeys(self.srcs + self.csrcs))
+
+    def element(self):
+        """an element / attribute / view of the value"""
+        return Val(self.srcs + self.csrcs, self.csrcs)
+
+    def shallow_copy(self):
+        return Val((), self.csrcs)
+
+
+def union(vals, immut=False):
+    return Val([s for v in vals for s in v.srcs], [c for v in vals for c in v.csrcs], immut=immut)
+
+
+def container_of(vals):
+    """a NEW container holding the values"""
+    return Val((), [s for v in vals for s in v.reach()])
 
 
 SELF = object()
@@ -588,7 +744,7 @@ class FnTx:
         self.nested = {}          # name -> FnSpec of nested defs
         self.selfname = None
         self.selfcls = spec.cls
-        self.forward = {}         # 'args'/'kwargs' names of a wrapper -> list of donor param names
+        self.forward = {}         # 'args'/'kwargs' names of a wrapper -> list of donor params
         self.counter = {}
 
     # ------------------------------------------------------------------ helpers
@@ -604,24 +760,51 @@ class FnTx:
     def var(self, name):
         k = self.counter.get(name, 0)
         self.counter[name] = k + 1
-        return self.an.newvar(f'{self.spec.key}/{name}#{k}')
+        return self.an.newvar(f'{self.spec.key}/{name}#{k}', self.fn)
 
-    def tmp(self, vals, label='%t'):
-        """one variable holding the union of the sources"""
-        srcs = list(dict.fromkeys(s for s in vals if s != NOTHING))
-        if not srcs:
-            return NOTHING
-        if len(srcs) == 1:
-            return srcs[0]
+    def C(self, v):
+        return self.an.cvar(v)
+
+    def flow(self, x, v):
+        """x := v  (both levels)"""
+        for s in v.srcs:
+            if s != x:
+                self.emit('alias', x, s)
+        cx = self.C(x)
+        for c in v.csrcs:
+            if c != cx:
+                self.emit('alias', cx, c)
+
+    def store_into(self, base, v):
+        """`base[...] = v`, `base.attr = v`, `base.append(v)`: base is modified and now holds v"""
+        for b in base.srcs:
+            self.emit('write', b)
+            cb = self.C(b)
+            for s in v.reach():
+                if s != cb:
+                    self.emit('alias', cb, s)
+
+    def write(self, base):
+        for b in base.srcs:
+            self.emit('write', b)
+
+    def as_var(self, v, label='%t'):
+        """(var, content var) holding the value"""
+        srcs, csrcs = list(v.srcs), list(v.csrcs)
+        if len(srcs) == 1 and (csrcs == [self.C(srcs[0])] or not csrcs):
+            if not csrcs:
+                return srcs[0], NOTHING
+            return srcs[0], csrcs[0]
+        if not srcs and not csrcs:
+            return NOTHING, NOTHING
         t = self.var(label)
-        for s in srcs:
-            self.emit('alias', t, s)
-        return t
+        self.flow(t, v)
+        return t, (self.C(t) if csrcs else NOTHING)
+
+    def of_var(self, x):
+        return Val((x,), (self.C(x),), immut=x in self.immut, inst=self.inst.get(x))
 
     # ------------------------------------------------------------------ signature
-    def sig_node(self):
-        return (self.spec.wrapper_of or self.spec).node
-
     def declare(self):
         """parameters and return variable (callers bind against these before the body is translated)"""
         spec, fn = self.spec, self.fn
@@ -647,16 +830,29 @@ class FnTx:
         if a.kwarg:
             names.append((a.kwarg.arg, 'kwarg'))
         for name, kind in names:
-            v = self.an.newvar(f'{spec.key}/{name}#0')
+            v = self.an.newvar(f'{spec.key}/{name}#0', fn)
+            self.an.cvar(v)
             fn.params.append((name, v, kind))
             d = defaults.get(name)
             if d is not None:
                 fn.defaults.add(name)
                 if isinstance(d, ast.Constant) and isinstance(d.value, (bool, int, float, str)):
                     fn.scalar.add(name)
-        fn.ret = self.an.newvar(f'{spec.key}/%ret')
+        fn.ret = self.an.newvar(f'{spec.key}/%ret', fn)
+        self.an.cvar(fn.ret)
 
     # ------------------------------------------------------------------ body
+    def bind_param(self, name, v, scalar):
+        if scalar:
+            # immutable scalar by contract (literal default): the body works on the value, never on the
+            # caller's object
+            nv = self.var(name)
+            self.emit('fresh', nv)
+            self.immut.add(nv)
+            self.env[name] = nv
+        else:
+            self.env[name] = v
+
     def translate(self):
         spec, fn = self.spec, self.fn
         if fn.done:
@@ -678,28 +874,26 @@ class FnTx:
             pnames = pnames[1:]
         if spec.wrapper_of is None:
             for name, v, kind in fn.params:
-                self.env[name] = v
                 self.counter[name] = 1
-                if name in fn.scalar:
-                    self.immut.add(v)
+                self.bind_param(name, v, name in fn.scalar)
         else:
             # wrapper instance: its own named parameters are the donor's parameters at the same position;
             # `*args` / `**kwargs` stand for the remaining donor parameters (perfect forwarding)
             donor_pos = [p for p in fn.params if p[2] == 'pos']
             for k, name in enumerate(pnames):
                 if k < len(donor_pos):
-                    self.env[name] = donor_pos[k][1]
-                    if donor_pos[k][0] in fn.scalar:
-                        self.immut.add(donor_pos[k][1])
+                    self.bind_param(name, donor_pos[k][1], donor_pos[k][0] in fn.scalar)
                 else:
                     self.env[name] = NOTHING
             rest = [p for p in fn.params if p not in donor_pos[:len(pnames)]]
             for x in (a.vararg, a.kwarg):
                 if x is not None:
                     v = self.var(x.arg)
+                    self.emit('fresh', v)
                     for p in rest:
                         if p[0] not in fn.scalar:
-                            self.emit('alias', v, p[1])
+                            self.emit('alias', self.C(v), p[1])
+                            self.emit('alias', self.C(v), self.C(p[1]))
                     self.env[x.arg] = v
                     self.forward[x.arg] = rest
         # names captured by nested functions / lambdas become cells
@@ -710,8 +904,7 @@ class FnTx:
                 self.env[name] = self.var(name)
                 self.cells.add(name)
         if isinstance(node, ast.Lambda):
-            v = self.eval(node.body)
-            self.ret(v)
+            self.ret(self.eval(node.body))
         else:
             self.block(node.body)
 
@@ -734,22 +927,20 @@ class FnTx:
             collect_assigned(s)
         used = set()
 
-        def collect_nested(n, inside):
+        def collect_nested(n):
             if isinstance(n, (ast.FunctionDef, ast.Lambda)):
-                if inside or n is not node:
-                    for m in ast.walk(n):
-                        if isinstance(m, ast.Name) and isinstance(m.ctx, ast.Load):
-                            used.add(m.id)
-                    return
+                for m in ast.walk(n):
+                    if isinstance(m, ast.Name) and isinstance(m.ctx, ast.Load):
+                        used.add(m.id)
+                return
             for c in ast.iter_child_nodes(n):
-                collect_nested(c, inside)
+                collect_nested(c)
         for s in body:
-            collect_nested(s, True)
+            collect_nested(s)
         return sorted(mine & used)
 
     def ret(self, v):
-        for s in v.srcs:
-            self.emit('alias', self.fn.ret, s)
+        self.flow(self.fn.ret, v)
 
     # ------------------------------------------------------------------ assignment
     def assign_name(self, name, v, node=None):
@@ -757,19 +948,14 @@ class FnTx:
             c = self.env[name]
             if not isinstance(c, int):
                 self.fail(node, 'assignment to self / a nested function name')
-            if not v.srcs:
-                pass      # a fresh value flows into the cell: nothing to record
-            for s in v.srcs:
-                self.emit('alias', c, s)
+            self.flow(c, v)
             self.immut.discard(c)
             self.inst.pop(c, None)
             return c
         nv = self.var(name)
-        if v.srcs:
-            for s in v.srcs:
-                self.emit('alias', nv, s)
-        else:
+        if not v.srcs:
             self.emit('fresh', nv)
+        self.flow(nv, v)
         if v.immut:
             self.immut.add(nv)
         if v.inst is not None:
@@ -784,25 +970,17 @@ class FnTx:
             for e in t.elts:
                 if isinstance(e, ast.Starred):
                     e = e.value
-                self.assign_target(e, Val(v.srcs), node)
+                self.assign_target(e, v.element(), node)
         elif isinstance(t, ast.Attribute):
             base = self.eval(t.value)
             av = self.an.attr_var(t.attr)
             self.an.stored_attrs.add(t.attr)
-            for s in v.srcs:
-                self.emit('alias', av, s)
-            for b in base.srcs:          # attribute store into a tracked object is a write to it
-                self.emit('write', b)
-                for s in v.srcs:
-                    self.emit('alias', b, s)
+            self.flow(av, v)
+            self.store_into(base, v)         # attribute store into a tracked object is a write to it
         elif isinstance(t, ast.Subscript):
             base = self.eval(t.value)
             self.eval(t.slice)
-            for b in base.srcs:
-                self.emit('write', b)
-                for s in v.srcs:         # a container holds what is stored into it
-                    if s != b:
-                        self.emit('alias', b, s)
+            self.store_into(base, v)
         elif isinstance(t, ast.Starred):
             self.assign_target(t.value, v, node)
         else:
@@ -829,6 +1007,10 @@ class FnTx:
             walk(s)
         return out
 
+    def alias_var(self, x, y):
+        self.emit('alias', x, y)
+        self.emit('alias', self.C(x), self.C(y))
+
     def join(self, envs):
         """merge SSA environments at a control-flow join"""
         names = set()
@@ -843,15 +1025,13 @@ class FnTx:
                 continue
             present = [v for v in vs if v is not None]
             uniq = list(dict.fromkeys(present))
-            if len(uniq) == 1 and len(present) == len(vs):
-                out[n] = uniq[0]
-            elif len(uniq) == 1:
+            if len(uniq) == 1:
                 out[n] = uniq[0]
             else:
                 nv = self.var(n)
                 for v in uniq:
                     if v != NOTHING:
-                        self.emit('alias', nv, v)
+                        self.alias_var(nv, v)
                 if all(v in self.immut for v in uniq):
                     self.immut.add(nv)
                 ts = {self.inst.get(v) for v in uniq}
@@ -866,19 +1046,19 @@ class FnTx:
                 return
             self.eval(s.value)
         elif isinstance(s, ast.Assign):
-            v = self.eval(s.value, want_ref=True)
+            v = self.eval(s.value)
             for t in s.targets:
                 if isinstance(t, (ast.Tuple, ast.List)) and isinstance(s.value, (ast.Tuple, ast.List)) \
                         and len(t.elts) == len(s.value.elts) \
                         and not any(isinstance(e, ast.Starred) for e in t.elts + s.value.elts):
-                    vals = [self.eval(e, want_ref=True) for e in s.value.elts]
+                    vals = [self.eval(e) for e in s.value.elts]
                     for tt, vv in zip(t.elts, vals):
                         self.assign_target(tt, vv, s)
                 else:
                     self.assign_target(t, v, s)
         elif isinstance(s, ast.AnnAssign):
             if s.value is not None:
-                self.assign_target(s.target, self.eval(s.value, want_ref=True), s)
+                self.assign_target(s.target, self.eval(s.value), s)
         elif isinstance(s, ast.AugAssign):
             rhs = self.eval(s.value)
             t = s.target
@@ -887,25 +1067,22 @@ class FnTx:
                 if cur.immut:
                     self.assign_name(t.id, Val((), immut=rhs.immut), s)      # re-binding of an immutable scalar
                 else:
-                    for b in cur.srcs:
-                        self.emit('write', b)
-                    self.assign_name(t.id, Val(cur.srcs), s)
-            elif isinstance(t, (ast.Subscript, ast.Attribute)):
+                    self.write(cur)
+                    self.assign_name(t.id, Val(cur.srcs, cur.csrcs), s)
+            elif isinstance(t, ast.Subscript):
                 base = self.eval(t.value)
-                if isinstance(t, ast.Subscript):
-                    self.eval(t.slice)
-                else:
-                    self.an.attr_var(t.attr)
-                for b in base.srcs:
-                    self.emit('write', b)
-                if isinstance(t, ast.Attribute):
-                    # `obj.attr += v` may update the attribute's object in place
-                    self.emit('write', self.an.attr_var(t.attr))
+                self.eval(t.slice)
+                self.store_into(base, rhs)
+            elif isinstance(t, ast.Attribute):
+                base = self.eval(t.value)
+                self.store_into(base, rhs)
+                # `obj.attr += v` may update the attribute's object in place
+                self.emit('write', self.an.attr_var(t.attr))
             else:
                 self.fail(s, 'augmented assignment target')
         elif isinstance(s, ast.Return):
             if s.value is not None:
-                self.ret(self.eval(s.value, want_ref=True))
+                self.ret(self.eval(s.value))
         elif isinstance(s, ast.Raise):
             if s.exc is not None:
                 self.eval(s.exc)
@@ -926,8 +1103,7 @@ class FnTx:
                 if isinstance(t, ast.Subscript):
                     base = self.eval(t.value)
                     self.eval(t.slice)
-                    for b in base.srcs:
-                        self.emit('write', b)
+                    self.write(base)
                 elif isinstance(t, ast.Name):
                     pass
                 else:
@@ -957,13 +1133,14 @@ class FnTx:
                 nv = self.var(n)
                 old = self.env.get(n)
                 if isinstance(old, int) and old != NOTHING:
-                    self.emit('alias', nv, old)
+                    self.alias_var(nv, old)
                 phis[n] = nv
                 self.env[n] = nv
             loop = {'phis': phis}
             self.loops.append(loop)
             if isinstance(s, ast.For):
-                elem = Val(it.srcs, immut=self.is_range(s.iter))
+                elem = it.element()
+                elem.immut = self.is_range(s.iter)
                 self.assign_loop_target(s.target, elem, s)
             else:
                 self.eval(s.test)
@@ -982,7 +1159,7 @@ class FnTx:
                 nv = self.var(n)
                 old = self.env.get(n)
                 if isinstance(old, int) and old != NOTHING:
-                    self.emit('alias', nv, old)
+                    self.alias_var(nv, old)
                 self.env[n] = nv
                 self.cells.add(n)
                 added.append(n)
@@ -1001,7 +1178,7 @@ class FnTx:
             for item in s.items:
                 v = self.eval(item.context_expr)
                 if item.optional_vars is not None:
-                    self.assign_target(item.optional_vars, Val(v.srcs), s)
+                    self.assign_target(item.optional_vars, Val(v.srcs, v.csrcs), s)
             self.block(s.body)
         elif isinstance(s, ast.FunctionDef):
             self.define_nested(s)
@@ -1014,24 +1191,23 @@ class FnTx:
         for n, phi in loop['phis'].items():
             cur = self.env.get(n)
             if isinstance(cur, int) and cur != phi and cur != NOTHING:
-                self.emit('alias', phi, cur)
+                self.alias_var(phi, cur)
                 if cur not in self.immut:
                     self.immut.discard(phi)
 
     def assign_loop_target(self, t, v, node):
-        # loop targets are phi variables already: alias into them instead of creating versions
+        # loop targets are phi variables already: flow into them instead of creating versions
         if isinstance(t, ast.Name):
-            phi = self.env[t.id]
             if t.id in self.cells:
                 self.assign_name(t.id, v, node)
                 return
-            for src in v.srcs:
-                self.emit('alias', phi, src)
+            phi = self.env[t.id]
+            self.flow(phi, v)
             if v.immut and not v.srcs:
                 self.immut.add(phi)
         elif isinstance(t, (ast.Tuple, ast.List)):
             for e in t.elts:
-                self.assign_loop_target(e.value if isinstance(e, ast.Starred) else e, Val(v.srcs), node)
+                self.assign_loop_target(e.value if isinstance(e, ast.Starred) else e, v.element(), node)
         else:
             self.assign_target(t, v, node)
 
@@ -1039,27 +1215,40 @@ class FnTx:
     def is_range(e):
         return isinstance(e, ast.Call) and isinstance(e.func, ast.Name) and e.func.id == 'range'
 
-    def define_nested(self, node):
-        key = f'{self.spec.key}.<{node.name}@{node.lineno}>'
+    def capture(self, node):
         cap = {}
         for m in ast.walk(node):
             if isinstance(m, ast.Name) and isinstance(self.env.get(m.id), int) and m.id in self.cells:
                 cap[m.id] = self.env[m.id]
-        spec = FnSpec(key, node, self.mod, self.spec.cls, closure=cap, bound=dict(self.spec.bound))
+        return cap
+
+    def nested_spec(self, key, node, is_lambda):
+        spec = FnSpec(key, node, self.mod, self.spec.cls, closure=self.capture(node), bound=dict(self.spec.bound),
+                      is_lambda=is_lambda)
         spec.nested_depth = self.spec.nested_depth + 1
+        self.fn.has_nested = True
         if self.selfname is not None:
             spec.closure_self = (self.selfname, self.selfcls)
-        spec.local_imports = dict(self.local_imports)
-        if node.decorator_list:
-            for d in node.decorator_list:
-                r = self.an.resolve_static(self.mod, d.func if isinstance(d, ast.Call) else d, self.local_imports)
-                if not (r and r[0] == 'ext' and r[1] == 'functools.wraps'):
-                    self.fail(node, f'decorator on nested function: {ast.unparse(d)}')
+        limp = dict(getattr(self.spec, 'local_imports', {}))
+        limp.update(self.local_imports)
+        spec.local_imports = limp
         self.an.specs[key] = spec
-        self.nested[node.name] = spec
-        if isinstance(node, ast.FunctionDef):
-            self.env[node.name] = ('nested', spec)
         return spec
+
+    def define_nested(self, node):
+        for d in node.decorator_list:
+            r = self.an.resolve_static(self.mod, d.func if isinstance(d, ast.Call) else d, self.imports())
+            if not (r and r[0] == 'ext' and r[1] == 'functools.wraps'):
+                self.fail(node, f'decorator on nested function: {ast.unparse(d)}')
+        spec = self.nested_spec(f'{self.spec.key}.<{node.name}@{node.lineno}>', node, False)
+        self.nested[node.name] = spec
+        self.env[node.name] = ('nested', spec)
+        return spec
+
+    def imports(self):
+        limp = dict(getattr(self.spec, 'local_imports', {}))
+        limp.update(self.local_imports)
+        return limp
 
     def escape(self, spec):
         self.an.specs.setdefault(spec.key, spec)
@@ -1078,12 +1267,10 @@ class FnTx:
                 return Val((), ref=('func', v[1]))
             if v == NOTHING:
                 return Val(())
-            return Val((v,), immut=v in self.immut, inst=self.inst.get(v))
+            return self.of_var(v)
         if name in self.spec.bound:
             return Val((), ref=('func', self.an.specs[self.spec.bound[name]]))
-        limp = dict(getattr(self.spec, 'local_imports', {}))
-        limp.update(self.local_imports)
-        r = self.an.resolve_static(self.mod, ast.Name(id=name, ctx=ast.Load()), limp)
+        r = self.an.resolve_static(self.mod, ast.Name(id=name, ctx=ast.Load()), self.imports())
         if r is not None:
             return self.static_val(r, node)
         if name in BUILTIN_FRESH or name in BUILTIN_ALIAS or name in EXC_NAMES or \
@@ -1110,8 +1297,8 @@ class FnTx:
             return Val((), immut=isinstance(e, ast.Constant))
         self.fail(node, f'cannot resolve {r[0]}')
 
-    def eval(self, e, want_ref=False):
-        """abstract value; a function reference that is not called escapes"""
+    def eval(self, e):
+        """abstract value; a function / bound method that is used as a value escapes"""
         v = self._eval(e)
         if v.ref is not None and v.ref[0] == 'func':
             self.escape(v.ref[1])
@@ -1133,8 +1320,8 @@ class FnTx:
             if base.ref is not None and base.ref[0] in ('class', 'ext', 'mod', 'builtin'):
                 return Val(())
             if self.fancy_index(e.slice):
-                return Val(())
-            return Val(base.srcs)
+                return Val((), base.csrcs)
+            return base.element()
         if isinstance(e, ast.Slice):
             for x in (e.lower, e.upper, e.step):
                 if x is not None:
@@ -1142,6 +1329,9 @@ class FnTx:
             return Val((), immut=True)
         if isinstance(e, (ast.BinOp,)):
             l, r = self.eval(e.left), self.eval(e.right)
+            if isinstance(e.op, ast.Add) or isinstance(e.op, ast.Mult):
+                # list concatenation / repetition: a NEW container with the same elements
+                return Val((), l.csrcs + r.csrcs, immut=l.immut and r.immut)
             return Val((), immut=l.immut and r.immut)
         if isinstance(e, ast.UnaryOp):
             o = self.eval(e.operand)
@@ -1153,21 +1343,28 @@ class FnTx:
             return Val(())
         if isinstance(e, ast.BoolOp):
             vs = [self.eval(x) for x in e.values]
-            return Val([s for v in vs for s in v.srcs], immut=all(v.immut for v in vs))
+            return union(vs, immut=all(v.immut for v in vs))
         if isinstance(e, ast.IfExp):
             self.eval(e.test)
             a, b = self.eval(e.body), self.eval(e.orelse)
-            return Val(a.srcs + b.srcs, immut=a.immut and b.immut)
+            return union([a, b], immut=a.immut and b.immut)
         if isinstance(e, (ast.Tuple, ast.List, ast.Set)):
-            vs = [self.eval(x.value if isinstance(x, ast.Starred) else x) for x in e.elts]
-            return Val([s for v in vs for s in v.srcs])
+            vs = []
+            for x in e.elts:
+                if isinstance(x, ast.Starred):
+                    vs.append(self.eval(x.value).element())
+                else:
+                    vs.append(self.eval(x))
+            return container_of(vs)
         if isinstance(e, ast.Dict):
-            srcs = []
+            vs = []
             for k, x in zip(e.keys, e.values):
                 if k is not None:
                     self.eval(k)
-                srcs += self.eval(x).srcs
-            return Val(srcs)
+                    vs.append(self.eval(x))
+                else:
+                    vs.append(self.eval(x).element())
+            return container_of(vs)
         if isinstance(e, (ast.ListComp, ast.SetComp, ast.GeneratorExp, ast.DictComp)):
             return self.eval_comp(e)
         if isinstance(e, ast.JoinedStr):
@@ -1181,17 +1378,7 @@ class FnTx:
         if isinstance(e, ast.Call):
             return self.eval_call(e)
         if isinstance(e, ast.Lambda):
-            key = f'{self.spec.key}.<lambda@{e.lineno}:{e.col_offset}>'
-            cap = {}
-            for m in ast.walk(e):
-                if isinstance(m, ast.Name) and isinstance(self.env.get(m.id), int) and m.id in self.cells:
-                    cap[m.id] = self.env[m.id]
-            spec = FnSpec(key, e, self.mod, self.spec.cls, closure=cap, bound=dict(self.spec.bound), is_lambda=True)
-            spec.nested_depth = self.spec.nested_depth + 1
-            if self.selfname is not None:
-                spec.closure_self = (self.selfname, self.selfcls)
-            spec.local_imports = dict(self.local_imports)
-            self.an.specs[key] = spec
+            spec = self.nested_spec(f'{self.spec.key}.<lambda@{e.lineno}:{e.col_offset}>', e, True)
             return Val((), ref=('func', spec))
         if isinstance(e, ast.Yield):
             if e.value is not None:
@@ -1206,8 +1393,6 @@ class FnTx:
         """boolean-mask / integer-array indexing on the right-hand side yields a copy"""
         if isinstance(sl, (ast.Compare, ast.List, ast.ListComp)):
             return True
-        if isinstance(sl, ast.BoolOp):
-            return False
         if isinstance(sl, ast.UnaryOp) and isinstance(sl.op, ast.Invert):
             return True
         if isinstance(sl, ast.BinOp) and isinstance(sl.op, (ast.BitAnd, ast.BitOr, ast.BitXor)):
@@ -1224,7 +1409,8 @@ class FnTx:
         saved_cells = set(self.cells)
         for g in e.generators:
             it = self.eval(g.iter)
-            elem = Val(it.srcs, immut=self.is_range(g.iter))
+            elem = it.element()
+            elem.immut = self.is_range(g.iter)
             for n in self.assigned_names([ast.Expr(g.target)]):
                 self.cells.discard(n)
                 self.env.pop(n, None)
@@ -1238,16 +1424,16 @@ class FnTx:
             out = self.eval(e.elt)
         self.env = saved
         self.cells = saved_cells
-        return Val(out.srcs)
+        if isinstance(e, ast.GeneratorExp):
+            return Val(out.reach(), out.reach())
+        return container_of([out])
 
     def eval_attr(self, e):
-        limp = dict(getattr(self.spec, 'local_imports', {}))
-        limp.update(self.local_imports)
         root = e
         while isinstance(root, ast.Attribute):
             root = root.value
         if isinstance(root, ast.Name) and root.id not in self.env and root.id not in self.spec.bound:
-            r = self.an.resolve_static(self.mod, e, limp)
+            r = self.an.resolve_static(self.mod, e, self.imports())
             if r is not None:
                 return self.static_val(r, e)
         base = self._eval(e.value)
@@ -1261,9 +1447,8 @@ class FnTx:
                 return Val((), immut=True)
         if base.ref is not None and base.ref[0] in ('ext', 'mod', 'builtin'):
             return Val((), immut=True)
-        srcs = []
+        srcs, csrcs = [], []
         known = False
-        # a bound method used as a value escapes
         cands = []
         if base.inst is not None:
             cands = self.an.method_specs(base.inst, attr)
@@ -1273,16 +1458,22 @@ class FnTx:
             known = True
         if attr in self.an.stored_attrs:
             known = True
-            srcs.append(self.an.attr_var(attr))
-            srcs.extend(base.srcs)
+            av = self.an.attr_var(attr)
+            srcs.append(av)
+            csrcs.append(self.C(av))
+            # the attribute's object is part of what the base object holds
+            srcs.extend(base.csrcs)
+            csrcs.extend(base.csrcs)
         if attr in VIEW_ATTRS:
             known = True
             srcs.extend(base.srcs)
+            srcs.extend(base.csrcs)
+            csrcs.extend(base.csrcs)
         if attr in IMMUTABLE_ATTRS:
             known = True
         if not known:
             self.fail(e, f'unknown attribute .{attr}')
-        v = Val(srcs)
+        v = Val(srcs, csrcs)
         if cands and attr not in self.an.stored_attrs:
             v.ref = ('methods', cands)
         elif cands:
@@ -1296,16 +1487,25 @@ class FnTx:
         for a in call.args:
             if isinstance(a, ast.Starred):
                 has_star = True
-                star.append((a.value, self.eval(a.value, want_ref=True)))
+                star.append((a.value, self.eval(a.value)))
             else:
-                pos.append(self.eval(a, want_ref=True))
+                pos.append(self.eval(a))
         for k in call.keywords:
             if k.arg is None:
                 has_dstar = True
-                dstar.append((k.value, self.eval(k.value, want_ref=True)))
+                dstar.append((k.value, self.eval(k.value)))
             else:
-                kw[k.arg] = self.eval(k.value, want_ref=True)
+                kw[k.arg] = self.eval(k.value)
         return pos, kw, (star if has_star else None), (dstar if has_dstar else None)
+
+    @staticmethod
+    def all_args(args):
+        pos, kw, star, dstar = args
+        vals = list(pos) + list(kw.values())
+        for lst in (star, dstar):
+            if lst:
+                vals += [v.element() for _, v in lst]
+        return vals
 
     def call_specs(self, specs, args, node, drop_first=False):
         """emit `call` to every arity-compatible candidate; returns the value of the result"""
@@ -1322,27 +1522,26 @@ class FnTx:
             self.emit_call(callee, pos, kw, star, dstar, ret)
         if n_ok == 0:
             self.fail(node, f'no callee accepts the arguments of {ast.unparse(node.func)}(…)')
-        return Val((ret,))
+        return self.of_var(ret)
 
     def emit_call(self, callee, pos, kw, star, dstar, ret):
         fwd_names = set()
-        star_srcs = dstar_srcs = None
+        star_items = dstar_items = None
         if star is not None:
-            star_srcs = []
+            star_items = []
             for expr, v in star:
                 if isinstance(expr, ast.Name) and expr.id in self.forward:
                     fwd_names.add(expr.id)
                 else:
-                    star_srcs.extend(v.srcs)
+                    star_items.append(v.element())
         if dstar is not None:
-            dstar_srcs = []
+            dstar_items = []
             for expr, v in dstar:
                 if isinstance(expr, ast.Name) and expr.id in self.forward:
                     fwd_names.add(expr.id)
                 else:
-                    dstar_srcs.extend(v.srcs)
-        args = bind(callee, [list(v.srcs) for v in pos], {k: list(v.srcs) for k, v in kw.items()},
-                    star_srcs, dstar_srcs)
+                    dstar_items.append(v.element())
+        args = bind(callee, [[v] for v in pos], {k: [v] for k, v in kw.items()}, star_items, dstar_items)
         if fwd_names:
             # perfect forwarding `f(self, X, *args, **kwargs)`: same-named parameters of the donor signature
             rest = []
@@ -1352,46 +1551,45 @@ class FnTx:
             posidx = [i for i, p in enumerate(callee.params) if p[2] == 'pos']
             bound_pos = set(posidx[:len(pos)])
             for p in dict.fromkeys(rest):
+                if p[0] in self.fn.scalar:
+                    continue
                 i = byname.get(p[0])
                 if i is not None and i not in bound_pos:
-                    if p[0] not in self.fn.scalar:
-                        args[i].append(p[1])
+                    args[i].append(self.of_var(p[1]))
                 else:
                     for j, q in enumerate(callee.params):
                         if q[2] in ('vararg', 'kwarg'):
-                            args[j].append(p[1])
-        vs = [self.tmp(srcs, '%arg') for srcs in args]
-        self.emit('call', callee.idx, vs, ret)
+                            args[j].append(container_of([self.of_var(p[1])]))
+        vs = []
+        for k, items in enumerate(args):
+            if callee.params[k][2] in ('vararg', 'kwarg'):
+                v = container_of(items)
+            else:
+                v = union(items)
+            a, ca = self.as_var(v, '%arg')
+            vs += [a, ca]
+        self.emit('call', callee.idx, vs, [ret, self.C(ret)])
 
-    def unresolved_call(self, args, node, extra_srcs=()):
+    def unresolved_call(self, args, node, extra=()):
         """callee unknown: a callable supplied by the caller, a stored bound method, or a class held in
         a variable.  May run any escaped callable or any constructor; assumed not to write its
         arguments itself; its result may alias its arguments."""
         pos, kw, star, dstar = args
         ret = self.var('%dyn')
-        site = {'fn': self.fn, 'pos': [self.tmp(v.srcs, '%arg') for v in pos],
-                'kw': {k: self.tmp(v.srcs, '%arg') for k, v in kw.items()},
-                'star': self.tmp([s for _, v in star for s in v.srcs], '%arg') if star is not None else None,
-                'dstar': self.tmp([s for _, v in dstar for s in v.srcs], '%arg') if dstar is not None else None,
+        site = {'fn': self.fn, 'pos': [self.as_var(v, '%arg') for v in pos],
+                'kw': {k: self.as_var(v, '%arg') for k, v in kw.items()},
+                'star': self.as_var(union([v.element() for _, v in star]), '%arg') if star is not None else None,
+                'dstar': self.as_var(union([v.element() for _, v in dstar]), '%arg') if dstar is not None else None,
                 'ret': ret, 'done': set()}
         self.an.unresolved.append(site)
-        allsrcs = list(extra_srcs)
-        for v in pos + list(kw.values()):
-            allsrcs.extend(v.srcs)
-        for lst in (star, dstar):
-            if lst:
-                for _, v in lst:
-                    allsrcs.extend(v.srcs)
-        for s in dict.fromkeys(allsrcs):
-            if s != NOTHING:
-                self.emit('alias', ret, s)
-        return Val((ret,))
+        out = union(self.all_args(args) + list(extra))
+        self.flow(ret, out)
+        return self.of_var(ret)
 
     def callbacks(self, args, node):
         """an external function that calls its callable arguments on values aliasing its other arguments"""
-        pos, kw, star, dstar = args
-        vals = pos + list(kw.values())
-        data = [s for v in vals for s in v.srcs]
+        vals = self.all_args(args)
+        data = union(vals).element()
         for v in vals:
             targets = []
             if v.ref is not None and v.ref[0] == 'func':
@@ -1402,12 +1600,11 @@ class FnTx:
                 callee = self.an.fn_for(spec)
                 self.escape(spec)
                 ret = self.var('%cb')
-                t = self.tmp(data, '%arg')
-                self.emit('call', callee.idx, [t for _ in callee.params], ret)
+                a, ca = self.as_var(data, '%arg')
+                self.emit('call', callee.idx, [x for _ in callee.params for x in (a, ca)], [ret, self.C(ret)])
 
     def mark_escaping(self, args):
-        pos, kw, star, dstar = args
-        for v in pos + list(kw.values()):
+        for v in self.all_args(args):
             if v.ref is not None and v.ref[0] in ('methods', 'methods+attr'):
                 for spec in v.ref[1]:
                     self.escape(spec)
@@ -1419,34 +1616,28 @@ class FnTx:
             if rx.match(dotted):
                 kind = k
                 break
-        allsrcs = [s for v in pos + list(kw.values()) for s in v.srcs]
-        for lst in (star, dstar):
-            if lst:
-                allsrcs += [s for _, v in lst for s in v.srcs]
+        allv = union(self.all_args(args))
         if 'out' in kw:
-            for s in kw['out'].srcs:
-                self.emit('write', s)
-        if kw.get('inplace') is not None and self.is_true(node, 'inplace'):
-            for s in (pos[0].srcs if pos else ()):
-                self.emit('write', s)
+            self.write(kw['out'])
+        if kw.get('inplace') is not None and self.is_true(node, 'inplace') and pos:
+            self.write(pos[0])
         if kw.get('copy') is not None and kind == 'fresh' and self.is_false(node, 'copy'):
             kind = 'alias'
         if kind == 'fresh':
             return Val(())
         if kind == 'alias':
-            return Val(allsrcs)
+            return Val(allv.srcs, allv.csrcs)
         if kind == 'cb':
             self.callbacks(args, node)
             return Val(())
         if kind == 'w0':
-            for s in (pos[0].srcs if pos else ()):
-                self.emit('write', s)
+            if pos:
+                self.write(pos[0])
             return Val(())
         # unknown external function: may write every argument, result may alias them
-        for s in dict.fromkeys(allsrcs):
-            self.emit('write', s)
+        self.write(allv)
         self.an.unknown_external.add(dotted)
-        return Val(allsrcs)
+        return Val(allv.srcs, allv.csrcs)
 
     @staticmethod
     def is_true(call, name):
@@ -1489,12 +1680,11 @@ class FnTx:
             for c in cls.mro()[1:]:
                 if f.attr in c.methods:
                     spec = self.an.spec_function(c.mod, c.methods[f.attr], c)
-                    return self.call_specs([spec], args, call, drop_first=False)
+                    return self.call_specs([spec], args, call)
             if f.attr in ('__new__', '__init__'):
                 return Val(())            # object.__new__ / object.__init__
             self.fail(call, f'super().{f.attr} not found')
         args = self.eval_args(call)
-        pos, kw, star, dstar = args
         # ---- method call
         if isinstance(f, ast.Attribute):
             return self.call_method(call, f, args)
@@ -1519,11 +1709,11 @@ class FnTx:
             if kind == 'builtin':
                 return self.builtin(fv.ref[1], args, call)
         self.mark_escaping(args)
-        return self.unresolved_call(args, call, extra_srcs=fv.srcs)
+        return self.unresolved_call(args, call, extra=[fv.element()])
 
     def builtin(self, name, args, node):
         pos, kw, star, dstar = args
-        allsrcs = [s for v in pos + list(kw.values()) for s in v.srcs]
+        allv = union(self.all_args(args))
         if name in BUILTIN_CB and (('key' in kw) or name in ('map', 'filter')):
             self.callbacks(args, node)
         if name == 'getattr':
@@ -1532,35 +1722,35 @@ class FnTx:
                 ast.copy_location(fake, node)
                 try:
                     v = self.eval_attr(fake)
-                    srcs = list(v.srcs)
                 except Untranslatable:
-                    srcs = list(pos[0].srcs)
-                if len(pos) > 2:
-                    srcs += pos[2].srcs
-                return Val(srcs)
-            return Val(allsrcs)
+                    v = pos[0].element()
+                return union([v] + pos[2:])
+            return allv.element()
         if name == 'setattr':
             self.fail(node, 'setattr with a computed attribute name')
         if name in EXC_NAMES:
             return Val(())
+        if name in BUILTIN_SHALLOW:
+            # a NEW container with the elements of the arguments
+            return Val((), allv.csrcs)
         if name in BUILTIN_FRESH:
             return Val((), immut=name in ('len', 'int', 'float', 'str', 'bool', 'abs', 'round', 'repr', 'isinstance',
                                           'hasattr', 'issubclass', 'callable'))
         if name in BUILTIN_ALIAS:
-            return Val(allsrcs)
+            if name in ('min', 'max', 'next'):
+                return allv.element()
+            return Val(allv.srcs, allv.csrcs)
         self.fail(node, f'builtin {name}')
 
     def call_method(self, call, f, args):
         pos, kw, star, dstar = args
         m = f.attr
-        limp = dict(getattr(self.spec, 'local_imports', {}))
-        limp.update(self.local_imports)
         # module / external dotted path
         root = f
         while isinstance(root, ast.Attribute):
             root = root.value
         if isinstance(root, ast.Name) and root.id not in self.env and root.id not in self.spec.bound:
-            r = self.an.resolve_static(self.mod, f, limp)
+            r = self.an.resolve_static(self.mod, f, self.imports())
             if r is not None:
                 if r[0] == 'ext':
                     self.mark_escaping(args)
@@ -1575,7 +1765,7 @@ class FnTx:
             self.mark_escaping(args)
             return self.unresolved_call(args, call)
         # ---- ClassName.method(...)
-        if recv.ref is not None and recv.ref[0] in ('class', 'cls'):
+        if recv.ref is not None and recv.ref[0] == 'class':
             cls = recv.ref[1]
             if cls.is_enum():
                 return Val((), immut=True)
@@ -1592,22 +1782,15 @@ class FnTx:
         if recv.ref is not None and recv.ref[0] in ('ext', 'mod', 'builtin'):
             self.mark_escaping(args)
             return self.external(f'{recv.ref[1] if recv.ref[0] != "mod" else recv.ref[1].name}.{m}', args, call)
-        # ---- self.m(...) inside a classmethod: `cls.m(...)`
-        is_self = recv.ref is not None and recv.ref[0] == 'self'
         results = []
         handled = False
-        # mutation by name / inplace
         if kw.get('inplace') is not None and self.is_true(call, 'inplace'):
-            for s in recv.srcs:
-                self.emit('write', s)
+            self.write(recv)
         if 'out' in kw:
-            for s in kw['out'].srcs:
-                self.emit('write', s)
+            self.write(kw['out'])
         cands = []
         if recv.inst is not None:
             cands = self.an.method_specs(recv.inst, m)
-            if is_self and self.selfcls is not None and self.is_classmethod_ctx():
-                pass
         elif m in self.an.method_names:
             cands = self.an.all_method_specs(m)
         if cands:
@@ -1617,44 +1800,43 @@ class FnTx:
             if ok:
                 results.append(self.call_specs(ok, args, call))
                 handled = True
-            elif recv.inst is not None and m not in MUTATING_METHODS | PURE_METHODS | ALIAS_METHODS \
-                    and m not in self.an.stored_attrs:
+            elif recv.inst is not None and not self.foreign_method(m) and m not in self.an.stored_attrs:
                 self.fail(call, f'no implementation of .{m} accepts these arguments')
-        if m in self.an.stored_attrs or (recv.inst is not None and not cands and not self.foreign_method(m)):
-            # an attribute holding a callable (`self.model()`, `self.ppfs[i](…)`, a replaced method)
-            if m in self.an.stored_attrs:
-                self.mark_escaping(args)
-                results.append(self.unresolved_call(args, call, extra_srcs=[self.an.attr_var(m)]))
-                handled = True
+        if m in self.an.stored_attrs:
+            # an attribute holding a callable (`self.model()`, a method replaced on the instance)
+            self.mark_escaping(args)
+            av = self.an.attr_var(m)
+            results.append(self.unresolved_call(args, call, extra=[self.of_var(av)]))
+            handled = True
         if recv.inst is None or not cands:
+            argv = self.all_args(args)
             if m in MUTATING_METHODS:
                 handled = True
-                for s in recv.srcs:
-                    self.emit('write', s)
-                    for v in pos + list(kw.values()):       # the container now holds the arguments
-                        for a in v.srcs:
-                            if a != s:
-                                self.emit('alias', s, a)
+                self.store_into(recv, union(argv))
                 self.mark_escaping(args)
                 if m in POP_LIKE:
-                    results.append(Val(recv.srcs))
+                    results.append(recv.element())
             elif m in ALIAS_METHODS:
                 handled = True
                 self.mark_escaping(args)
-                results.append(Val(list(recv.srcs) + ([s for v in pos[1:] for s in v.srcs] if m == 'get' else [])))
+                if m in ELEMENT_METHODS:
+                    results.append(union([recv.element()] + (pos[1:] if m == 'get' else [])))
+                else:
+                    results.append(Val(recv.srcs, recv.csrcs))
             elif m in PURE_METHODS:
                 handled = True
                 if m in ('apply',):
                     self.callbacks(args, call)
                 self.mark_escaping(args)
                 if kw.get('copy') is not None and self.is_false(call, 'copy'):
-                    results.append(Val(recv.srcs))
+                    results.append(Val(recv.srcs, recv.csrcs))
+                elif m in SHALLOW_METHODS:
+                    results.append(recv.shallow_copy())
                 else:
                     results.append(Val(()))
         if not handled:
             self.fail(call, f'unknown method .{m}()')
-        srcs = [s for v in results for s in v.srcs]
-        return Val(srcs)
+        return union(results)
 
     @staticmethod
     def foreign_method(m):
@@ -1700,10 +1882,11 @@ def analyse(repo):
     an.unknown_external = set()
     entries = entry_specs(an)
     an.run([spec for _, spec, _ in entries])
+    inline_small(an, {an.fns[k].idx for k, _, _ in entries})
     an.entries = []
     for key, spec, tags in entries:
         fn = an.fns[key]
-        params = [(name, v) for name, v, kind in fn.params if name not in fn.scalar]
+        params = [(name, v, an.cvar(v)) for name, v, kind in fn.params if name not in fn.scalar]
         an.entries.append({'name': key, 'fn': fn.idx, 'params': params, 'tags': tags,
                            'scalar': sorted(fn.scalar)})
     return an
@@ -1711,14 +1894,14 @@ def analyse(repo):
 
 def lean_stmt(st):
     if st[0] == 'call':
-        return f'.call {st[1]} [{", ".join(str(a) for a in st[2])}] {st[3]}'
+        return f'.call {st[1]} [{", ".join(str(a) for a in st[2])}] [{", ".join(str(a) for a in st[3])}]'
     return f'.{st[0]} ' + ' '.join(str(a) for a in st[1:])
 
 
 HEADER = '''import CopVerif.Model.Effects
 /-! GENERATED by tools/regen.py (tools/gen_effects.py) from /repo/copulas/**/*.py on every run - do not edit.
     Write-effect IR of every public entry point of `copulas` and of every function reachable from one.
-    `module` = all translated functions, `entries` = (name, function index, tracked parameters),
+    `module` = all translated functions, `entries` = (name, function index, tracked parameters (name, variable, content variable)),
     `fnNames` / `varNames` = provenance for diagnostics. -/
 namespace CopVerif.Gen.Effects
 open CopVerif.Model.Effects
@@ -1745,7 +1928,7 @@ def generate(repo):
             out.append(f'def fn{f.idx}_b{k} : List Stmt := [' + ', '.join(lean_stmt(s) for s in ch) + ']')
             parts.append(f'fn{f.idx}_b{k}')
         out.append(f'/-- {f.spec.key} ({f.spec.mod.rel}:{f.spec.node.lineno}) -/')
-        out.append(f'def fn{f.idx} : Fn := ⟨[{", ".join(str(p[1]) for p in f.params)}], {f.ret}, '
+        out.append(f'def fn{f.idx} : Fn := ⟨[{", ".join(f"{p[1]}, {an.cvar(p[1])}" for p in f.params)}], [{f.ret}, {an.cvar(f.ret)}], '
                    + ' ++ '.join(parts) + '⟩')
     for k, ch in enumerate(chunks(an.order, 60)):
         out.append(f'def module_c{k} : Array Fn := #[' + ', '.join(f'fn{f.idx}' for f in ch) + ']')
@@ -1756,9 +1939,9 @@ def generate(repo):
                ' ++ '.join(f'fnNames_c{k}' for k in range(len(chunks(an.order, 60)))))
     ents = []
     for e in an.entries:
-        ps = ', '.join(f'({lean_str(n)}, {v})' for n, v in e['params'])
+        ps = ', '.join(f'({lean_str(n)}, {v}, {c})' for n, v, c in e['params'])
         ents.append(f'({lean_str(e["name"])}, {e["fn"]}, [{ps}])')
-    out.append('def entries : List (String × Nat × List (String × Var)) := [\n  ' + ',\n  '.join(ents) + ']')
+    out.append('def entries : List (String × Nat × List (String × Var × Var)) := [\n  ' + ',\n  '.join(ents) + ']')
     for k, ch in enumerate(chunks(an.varnames, 400)):
         out.append(f'def varNames_c{k} : Array String := #[' + ', '.join(lean_str(v) for v in ch) + ']')
     out.append('def varNames : Array String := ' +
